@@ -414,18 +414,8 @@ void Var::operator=(const char* x)
 		memmove(_ss, x, n + 1);
 	else
 	{
-		free();
-		if(n < VAR_SSPACE)
-		{
-			_type = SSTRING;
-			memcpy(_ss, x, n + 1);
-		}
-		else
-		{
-			_type=STRING;
-			NEW_STRINGC(_s, n + 1);
-			memcpy(_s->data(), x, n + 1);
-		}
+		Var tmp(x); // x may point into a string held by this array or object: copy it before releasing them
+		bswap(*this, tmp);
 	}
 }
 
